@@ -67,6 +67,7 @@ fn main() {
 								Some("parse") => parsev::replay_parse(&mut rep, &rec),
 								Some("obj") => objv::replay_obj(&mut rep, &mut ost, &rec),
 								Some("nest") => nestv::replay_nest(&mut rep, &rec),
+								Some("nestb") => nestv::replay_nestb(&mut rep, &rec),
 								Some("canon") => canonv::replay_canon(&mut rep, &rec),
 								Some("conv") => navv::replay_conv(&mut rep, &rec),
 								Some("fragiter") => navv::replay_fragiter(&mut rep, &rec),
